@@ -153,8 +153,29 @@ func C19Case(r *Runner, base string, tape *sim.Tape) *Outcome {
 	// flush, the last read before EOF, the closing rename); 2 = any occurrence on one path
 	nthMode, nthPick := tape.Draw(3), tape.Draw(1<<20)
 	var trace0 []TraceOp
+	// a file of several MiB is rare and expensive: when there is one, always spend the third
+	// run on it and aim the error at the operation that touches it most often (its last
+	// write / read), where a streaming implementation has the most state in flight
+	aimBusiest := false
+	for _, e := range c.Tree.Entries {
+		if len(e.Data) >= 4<<20 {
+			aimBusiest = true
+		}
+	}
+	if aimBusiest {
+		out.stat("scenarios_with_file_of_several_MiB", 1)
+		if inj == nil {
+			inj = &Inject{Kind: []string{"write", "write", "write", "read"}[nthPick%4], PathRe: ".", Times: []int{1, 1, 2, -1}[(nthPick>>2)%4], Errno: int(syscall.ENOSPC)}
+		}
+		if nthMode == 0 {
+			nthMode = 1
+		}
+	}
 	ex := c.Inv.Expect(c.Tree)
 	out.stat("shape_"+c.Shape, 1)
+	if c.Inv.Prepopulated > 0 {
+		out.stat("scenarios_with_prepopulated_destinations", 1)
+	}
 	work, err := NewWork(base)
 	if err != nil {
 		out.Infra = err.Error()
@@ -275,6 +296,13 @@ func C19Case(r *Runner, base string, tape *sim.Tape) *Outcome {
 			sort.Strings(names)
 			if len(names) > 0 {
 				name := names[nthPick%len(names)]
+				if aimBusiest {
+					for _, n := range names {
+						if count[n] > count[name] {
+							name = n
+						}
+					}
+				}
 				inj.PathRe = "^" + regexp.QuoteMeta(name) + "$"
 				inj.Nth = count[name] - 1
 				if nthMode == 2 {
